@@ -27,6 +27,7 @@ inductive Ev where
   | shutb (t : Nat) | shute (t : Nat)
   | ff (t : Nat)
   | cx (k : Nat) (t : Nat)
+  | cmdto (k : Nat)
   | settled (t : Nat)
   | slowdial
   | stuck (g site : String)
@@ -61,6 +62,7 @@ def parseEv (toks : List String) : Ev :=
   | ["shute", t] => .shute (n t)
   | ["ff", t] => .ff (n t)
   | ["cx", k, t] => .cx (n k) (n t)
+  | ["cmdto", k] => .cmdto (n k)
   | ["settled", t] => .settled (n t)
   | ["stuck", g, s] => .stuck g s
   | ["slowdial"] => .slowdial
@@ -267,6 +269,15 @@ def c15 (h : H) : List String :=
          | none => []
        | _, _ => []
      else []) ++
+    -- a command fails with a context error only when ITS OWN context ended (or the connection was shut down):
+    -- the fate of the command that happened to start the connect attempt is not shared with the other waiters
+    (match en with
+     | some (ie, r, _) =>
+       let ownTimeout := h.any fun e => match e with | .cmdto k' => k' == k | _ => false
+       let stopped := ih.any fun (j, e) => decide (j < ie) && match e with | .shutb _ => true | .settled _ => true | _ => false
+       if (r = "canceled" ∨ r = "deadline" ∨ r = "other:context_canceled") ∧ !cancelled ∧ !ownTimeout ∧ !stopped
+       then ["C15:context-error-although-the-command's-own-context-is-live"] else []
+     | none => []) ++
     -- a cancelled command returns
     (match en with
      | none => ["C15:command-never-returned"]
